@@ -272,7 +272,7 @@ func runProperty(ctx *Ctx, o *Options, t0 time.Time) int {
 	}
 	sort.Strings(ext)
 	var ass []string
-	ass = append(ass, "machine integers treated as mathematical integers except unsigned subtraction, %, shifts by constants and narrowing conversions",
+	ass = append(ass, "machine integers treated as mathematical integers except unsigned subtraction, %, /, shifts by constants, narrowing and sign conversions, and multiplication of a 64-bit value by a constant >= 65536 (exact wrap-around)",
 		"floating point operations are uninterpreted (no rounding model)",
 		"each function is verified as sequential code; goroutines are not interleaved",
 		"calls to logrus, fmt.Print* and metrics timers/histograms are erased; log.IsLevelEnabled is taken as false",
